@@ -71,6 +71,7 @@ class Acc:
         self.inconclusive = []
         self.sample = None
         self.observed = None
+        self.empty_ok = False
 
     def count(self, d, k, n=1):
         d[k] = d.get(k, 0) + n
@@ -97,6 +98,8 @@ class Acc:
         reason = None
         if self.violations:
             verdict = "violated"
+        elif self.executions == 0 and self.empty_ok:
+            verdict = "held"
         elif self.executions == 0 or (self.inconclusive and len(self.inconclusive) >= max(1, self.executions // 2)):
             verdict = "inconclusive"
             reason = (self.inconclusive[0] if self.inconclusive else "no execution")
@@ -156,7 +159,7 @@ def probe_one(acc, spec, cand, cfg=None, completeness=False, status=None, rep_c=
         return out
     if out == "sat":
         _rep, _P, decided = judge_observed(acc, spec, res, tag="sat", pinned=cand)
-        if decided:
+        if decided or (completeness and status == "valid"):
             acc.sigs.add(sig)
         if acc.sample is None:
             acc.sample = {"spec": spec, "pinned_candidate": cand, "candidate_status": status,
@@ -223,6 +226,13 @@ def culprit_of(spec, cand, cfg=None):
                     if cid is not None and f'"{cid}"' in blob:
                         ok_ref = False
                 if ok_ref:
+                    try:
+                        still_valid = cd.classify(trial, cand)[0] == "valid"
+                    except Exception:  # pylint: disable=broad-except
+                        still_valid = False
+                    if not still_valid:
+                        i += 1
+                        continue
                     budget -= 1
                     if _admitted(trial, cand, cfg) == "unsat":
                         cur = trial
@@ -232,7 +242,7 @@ def culprit_of(spec, cand, cfg=None):
     kinds = sorted({c["kind"] + ("." + c["mode"] if c.get("mode") else "") for c in cur.get("constraints", [])}
                    | {"ind:" + i["kind"] for i in cur.get("indicators", [])}
                    | {"obj:" + o["kind"] for o in cur.get("objectives", [])})
-    feats = witness_features(cur, cand)
+    feats = {k: v for k, v in witness_features(cur, cand).items() if v not in (False, [], None, 0)}
     return "+".join(kinds) if kinds else "core", feats
 
 
@@ -280,21 +290,37 @@ def witness_features(spec, cand):
 # case kinds
 # ---------------------------------------------------------------------------
 def run_grid(acc, case, completeness=False):
+    """enumerate the candidate grid, classify every candidate with refsem (cheap),
+    keep the ones this check wants, and pin-probe them (all, or a seeded sample
+    of `limit`)."""
     spec = case["spec"]
     rng = random.Random(case.get("rng", 0))
     wide = case.get("wide", True)
-    n = 0
-    for cand in cd.enumerate_candidates(spec, wide=wide, limit=case.get("limit"), rng=rng,
+    kept = []
+    total = 0
+    for cand in cd.enumerate_candidates(spec, wide=wide, limit=case.get("enum_limit", 30000), rng=rng,
                                         task_lo=case.get("lo"), task_hi=case.get("hi")):
+        total += 1
         status, rep_c = cd.classify(spec, cand)
         if case.get("only") and status not in case["only"]:
             continue
         if case.get("skip_foreign_invalid") and status == "invalid":
             if not any(acc.mine(cl) for cl, _ in rep_c.failed()):
                 continue
-        n += 1
+        kept.append((cand, status, rep_c))
+    acc.count(acc.outcomes, "grid_candidates", total)
+    lim = case.get("limit")
+    if lim is not None and len(kept) > lim:
+        kept = rng.sample(kept, lim)
+        acc.count(acc.outcomes, "grid_sampled")
+    else:
+        acc.count(acc.outcomes, "grid_complete")
+    if not kept:
+        acc.empty_ok = True
+        acc.count(acc.outcomes, "grid_nothing_to_probe")
+    for cand, status, rep_c in kept:
         probe_one(acc, spec, cand, case.get("solver"), completeness, status, rep_c)
-    return n
+    return len(kept)
 
 
 def run_solve_case(acc, case):
